@@ -127,7 +127,9 @@ def check_send(ctx):
     f = repo.method("SecsIProtocol", "_process_send_queue", inherited=False)
     ctx.touch(f)
     q = f.qualname
-    cfg = cfg_of(inline.expanded(ctx, f, keep={"_process_received_data"}))
+    sfn = inline._copy_node(inline.expanded(ctx, f, keep={"_process_received_data"}))
+    normal._bool_argument_pass(sfn)  # `if r == ACK: resolve(True) else: resolve(False)` is `resolve(r == ACK)`
+    cfg = cfg_of(sfn)
     heads = [n for n in cfg.nodes if n.kind == "test" and n.label == "while"]
     ctx.require(len(heads) == 1, f"{q}: send loop not found")
     H = heads[0]
